@@ -48,6 +48,8 @@ func init() {
 	for _, p := range []string{"C08", "C09", "C10", "C11", "C18", "C20"} {
 		simsFor[p] = []simWeight{{"cli", 1}}
 	}
+	register(gridSim{})
+	simsFor["C16"] = []simWeight{{"grid", 1}}
 	register(c13Sim{})
 	simsFor["C13"] = []simWeight{{"c13", 1}}
 	register(c04Sim{})
